@@ -233,6 +233,9 @@ def request_catalogue():
     # the URL carries parameters named like the form fields
     out.append(('post-query-clash', '/post', 'POST', 'p=from-url&n=7', b'p=1&n=abc'))
     out.append(('post-query-only', '/post', 'POST', 'p=from-url&n=7', b''))
+    # a large form (a pasted document): 600 kB in one field, 20 000 small fields
+    out.append(('post-big-field', '/post', 'POST', '', b'n=5&p=' + b'x' * 600000))
+    out.append(('post-many-fields', '/post', 'POST', '', b'n=5&p=1&' + b'&'.join(b'f%d=v' % i for i in range(3000))))
     return out
 
 
@@ -321,6 +324,8 @@ def check_stack(acc, stack, baseline_app, cache):
             aes = AE if (rlabel.startswith('resp-') or rlabel.startswith('ctx-') or rlabel.endswith('@msie') or rlabel in ('raise4', 'ret4', 'fallthrough', 'stream', 'deflated', 'redirector')) else AE[:3]
             if q and not rlabel.startswith('resp-k'):
                 aes = aes[:2]
+            if rlabel in ('post-big-field', 'post-many-fields') and (len(stack) > 2 or q):
+                continue      # the large forms go through single middlewares and ordered pairs
             if rlabel == 'ctxroute' and ('ctxproc' in stack or 'ctxdefaults' in stack):
                 # an application-level middleware of the very same (unique) type replaces the route's: the merge rule
                 continue
